@@ -1,0 +1,14 @@
+//go:build verif
+// +build verif
+
+// Contracts for package rawfile, read only by the verifier in /verif (build tag verif).
+// This file contains no code.
+
+package rawfile
+
+// ASSUMED (system calls through unsafe pointers, not verified): the write functions read their
+// buffers and change nothing the verifier models.
+//@ func NonBlockingWrite props C06
+//@   trusted
+//@ func NonBlockingWrite2 props C06
+//@   trusted
